@@ -20,6 +20,12 @@ prop("C16", claimed=True, level="model_checking", engine="E-SEQ (isolated worker
      note="Alphabet, length bounds; hang = no progress for 0.6 s (30 s for long inputs) or 2 GiB address-space exhaustion; QueryParser agreement is checked through the document sets on a fixed corpus. Recorded defects of the pinned tree are narrow signatures in known_findings.json.",
      design_ref="3/C16")
 
+prop("C20", claimed=True, level="model_checking", engine="E-SEQ",
+     technique="exhaustive damage enumeration (every bit of every segment file body, every truncation length, short extensions, footer versions) and every short-write pattern through the real footer proxy / validate_checksum",
+     text="For every segment file of 12 (thorough 24) small indexes covering all component kinds, every single-bit flip and three substitutions of every body byte, every truncation length and extensions of 1..9 bytes are applied one at a time and Index::validate_checksum must report exactly that file (or fail naming it) and nothing on the intact index; every sequence of <= 3 (4) writes of boundary sizes through the managed directory over an underlying writer that accepts full, 1-byte or half writes must read back exactly and validate; 7 footer versions per file must be refused exactly outside the supported range.",
+     note="Index family and write-size alphabet are bounded; multi-byte random damage is not enumerated (CRC32 gives no guarantee there).",
+     design_ref="3/C20")
+
 ALL = ["C%02d" % i for i in range(1, 21)]
 REASON_TODO = "check not built yet in this revision of /verif (design in DESIGN.md section 3); will be claimed when its engine lands"
 
